@@ -36,10 +36,10 @@ use crate::util;
 const MIB: usize = 1024 * 1024;
 
 #[derive(Debug, Clone, PartialEq, Eq)]
-struct RefFrame {
-    flag: u8,
-    id: u64,
-    data: Vec<u8>,
+pub struct RefFrame {
+    pub flag: u8,
+    pub id: u64,
+    pub data: Vec<u8>,
 }
 
 fn ref_flag(kind: Kind, role: Endpoint) -> u8 {
@@ -55,7 +55,7 @@ fn ref_flag(kind: Kind, role: Endpoint) -> u8 {
     }
 }
 
-fn ref_encode(f: &RefFrame) -> Vec<u8> {
+pub fn ref_encode(f: &RefFrame) -> Vec<u8> {
     let mut o = pb::uvarint((f.id << 3) | f.flag as u64);
     o.extend(pb::uvarint(f.data.len() as u64));
     o.extend_from_slice(&f.data);
@@ -81,13 +81,13 @@ fn canon_uvarint(b: &[u8]) -> Option<Option<(u64, usize)>> {
 }
 
 #[derive(Debug, Clone, PartialEq, Eq)]
-enum RefItem {
+pub enum RefItem {
     Frame(RefFrame),
     Err,
 }
 /// reference decode of a whole stream: frames, then optionally an error; None if the reference
 /// cannot give an opinion (non-canonical varint)
-fn ref_decode(mut b: &[u8]) -> Option<Vec<RefItem>> {
+pub fn ref_decode(mut b: &[u8]) -> Option<Vec<RefItem>> {
     let mut out = vec![];
     loop {
         let Some((h, k)) = canon_uvarint(b)? else { return Some(out) };
